@@ -327,7 +327,159 @@ def rule_strtab_window(ctx, R="C14/strtab-window"):
                   "the name is not decoded from the whole buffer read by from_bytes_until_nul")
 
 
+# gABI dynamic tags (elf.h), written independently of the repository
+DT_NULL, DT_STRTAB, DT_STRSZ, DT_SONAME = 0, 5, 10, 14
+CLASS_DEPENDENT = ("goblin::elf::dynamic::Dyn", "goblin::elf::Dyn", "goblin::elf::ProgramHeader", "goblin::elf::program_header::ProgramHeader", "goblin::elf::SectionHeader",
+                   "goblin::elf::section_header::SectionHeader", "goblin::elf::Header", "goblin::elf::header::Header", "goblin::elf::Sym", "goblin::elf::sym::Sym")
+
+
+def _root_local(b, l, depth=0):
+    """follow `x = copy/move y` chains of single-definition temporaries back to the local they copy"""
+    while depth < 8:
+        defs = [(bi, si, st) for bi, blk in enumerate(b.blocks) for si, st in enumerate(blk["stmts"]) if st["k"] == "assign" and st["p"]["l"] == l and not st["p"]["proj"]]
+        if len(defs) != 1:
+            return l
+        r = defs[0][2]["r"]
+        if r["k"] == "use" and r["o"].get("k") in ("copy", "move") and not r["o"]["p"]["proj"]:
+            l = r["o"]["p"]["l"]
+            depth += 1
+            continue
+        return l
+    return l
+
+
+def rule_dynamic_entries(ctx, R="C14/dynamic-entries"):
+    """the DT_SONAME string `as found by an independent parser`, for 32- and 64-bit images of either byte order: dynamic entries are
+    decoded and stepped over with the image's own class/endianness context (never with the size of goblin's unified in-memory struct),
+    the walk ends at DT_NULL, and DT_STRTAB / DT_STRSZ / DT_SONAME are what is handed on as table address, table size and name offset."""
+    prog = ctx.prog
+    scope = prog.reachable([f for f in prog.by_short if f.endswith("ReadFromModule>::read_from_module")])
+    ctx.floor(R, "functions reachable from the ELF readers", len(scope), 20)
+    # (a) no stride/size taken from the in-memory struct
+    n = 0
+    for f in sorted(scope):
+        for b in prog.by_short.get(f, ()):
+            for bi, t in b.calls(lambda c: (c.short or "") in ("std::mem::size_of", "std::mem::size_of_val", "core::mem::size_of", "std::mem::align_of")):
+                n += 1
+                inst = (t["callee"].get("inst") or "")
+                bad = [c for c in CLASS_DEPENDENT if "<" + c + ">" in inst]
+                ctx.check(not bad, R, ("size-of", f.split("::{closure")[0].split("::")[-1], inst.split("<")[-1].rstrip(">").split("::")[-1]), b.where(bi), "size_of::<%s> is not an on-disk ELF structure" % inst.split("<")[-1].rstrip(">"),
+                          "the size of goblin's unified in-memory %s is used as an on-disk size/stride: it is the ELF64 size, 32-bit images are mis-stepped" % (bad[0] if bad else ""))
+    # (b) the iterator
+    it = [b for b in prog.bodies if b.short.startswith("<linux::module_reader::DynIter") and b.short.endswith("Iterator>::next")]
+    if len(it) != 1:
+        ctx.violated(R, ("anchor", "DynIter::next"), None, "anchor missing: <DynIter as Iterator>::next")
+    else:
+        b = it[0]
+        o = Origin(b)
+        gr = [(bi, t) for bi, t in b.calls(lambda c: (c.short or "").split("::")[-1] in ("gread_with", "pread_with", "gread", "pread"))]
+        okd = False
+        if len(gr) == 1:
+            bi, t = gr[0]
+            a = o.call_args(bi)
+            nm = (CalleeView(t["callee"]).short or "").split("::")[-1]
+            src_ok = core(a[0])[0] == "field" and core(a[0])[2] == "data" and root(core(a[0])[1]) == ("param", 1)
+            ctx_ok = any(core(x)[0] == "field" and core(x)[2] == "ctx" for x in a[1:])
+            off_ok = nm == "gread_with" and any(q[0] == "field" and q[2] == "offset" for x in a[1:] for q in walk(x)) or \
+                any(st["k"] == "assign" and st["r"]["k"] == "ref" and st["r"]["bk"] == "mut" and st["r"]["p"]["proj"] and st["r"]["p"]["proj"][-1].get("n") == "offset" for blk in b.blocks for st in blk["stmts"])
+            okd = src_ok and ctx_ok and off_ok and nm == "gread_with" and "Dyn" in (t["callee"].get("inst") or "")
+        ctx.check(okd, R, "decode-with-context", b.where(gr[0][0]) if gr else b.where(0), "each entry is decoded from self.data at self.offset with self.ctx, which also advances the offset by the entry's on-disk size",
+                  "dynamic entries are not decoded by gread_with(&mut self.offset, self.ctx) over self.data (calls: %s)" % sorted({(CalleeView(t["callee"]).short or "").split("::")[-1] for _, t in b.calls()})[:8])
+        sw = []
+        for x in range(b.n):
+            if b.blocks[x]["cleanup"] or b.term(x)["k"] != "switch":
+                continue
+            a, _ = switch_atom(b, o, x)
+            a = core(a)
+            if a[0] == "bin" and a[1] in ("Eq", "Ne") and any(q[0] == "field" and q[2] == "d_tag" for q in walk(a)):
+                sw.append((x, a))
+            elif a[0] == "field" and a[2] == "d_tag":
+                sw.append((x, ("bin", "Eq", a, ("const", [v for v, _ in b.term(x)["targets"]][0] if b.term(x)["targets"] else -1, "u64"))))
+        okn = len(sw) == 1 and is_const(core(sw[0][1][3])) and core(sw[0][1][3])[1] == DT_NULL
+        ctx.check(okn, R, "ends-at-DT_NULL", b.where(sw[0][0]) if sw else b.where(0), "the walk ends at the first DT_NULL entry", "the walk does not end exactly at d_tag == DT_NULL (0)")
+    # (c) tag -> role wiring in soname_from_program_headers
+    b = ctx.body(R, MR + "::ModuleReader::soname_from_program_headers")
+    if b is not None:
+        o = Origin(b)
+        tagsw = None
+        for x in range(b.n):
+            if b.blocks[x]["cleanup"] or b.term(x)["k"] != "switch":
+                continue
+            a, _ = switch_atom(b, o, x)
+            if core(a)[0] == "field" and core(a)[2] == "d_tag":
+                tagsw = x
+        rn = [bi for bi, t in b.calls(lambda c: c.endswith("read_name_from_strtab"))]
+        ab = [bi for bi, t in b.calls(lambda c: c.endswith("ProcessMemory::absolute"))]
+        if tagsw is None or len(rn) != 1:
+            ctx.unproven(R, ("tags", "shape"), b.where(0), "cannot find the match on d_tag / the single read_name_from_strtab call")
+        else:
+            role = {}
+            for v, tb in b.term(tagsw)["targets"]:
+                # the user variable that receives Some(d_val) in this arm
+                dst = None
+                for st in b.blocks[tb]["stmts"]:
+                    if st["k"] == "assign" and not st["p"]["proj"] and b.locals[st["p"]["l"]].get("name"):
+                        dst = st["p"]["l"]
+                role[v] = dst
+            # tuple scrutinee (a, b, c) and the bindings taken out of it
+            tup = None
+            for blk in b.blocks:
+                for st in blk["stmts"]:
+                    if st["k"] == "assign" and st["r"]["k"] == "agg" and st["r"].get("ak") == "tuple" and len(st["r"]["ops"]) == 3:
+                        cand = (st["p"]["l"], [_root_local(b, op["p"]["l"]) if op.get("p") else None for op in st["r"]["ops"]])
+                        if set(cand[1]) == set(role.get(v) for v in (DT_STRTAB, DT_STRSZ, DT_SONAME)):
+                            tup = cand
+            bind = {}
+            if tup:
+                for blk in b.blocks:
+                    for st in blk["stmts"]:
+                        if st["k"] == "assign" and not st["p"]["proj"] and st["r"]["k"] == "use" and st["r"]["o"].get("p") and st["r"]["o"]["p"]["l"] == tup[0] and st["r"]["o"]["p"]["proj"] and st["r"]["o"]["p"]["proj"][0]["k"] == "field":
+                            bind[st["p"]["l"]] = tup[1][st["r"]["o"]["p"]["proj"][0]["i"]]
+            args = b.term(rn[0])["args"]
+
+            def src(op):
+                l = _root_local(b, op["p"]["l"]) if op.get("p") else None
+                if l is not None and l not in bind:
+                    # through absolute(addr)
+                    for bi in ab:
+                        d = b.term(bi).get("dest")
+                        if d and d["l"] == l:
+                            l = _root_local(b, b.term(bi)["args"][1]["p"]["l"])
+                return bind.get(l)
+            got = [src(a_) for a_ in args[1:4]]
+            want = [role.get(DT_STRTAB), role.get(DT_STRSZ), role.get(DT_SONAME)]
+            okw = tup is not None and None not in want and got == want and len(set(want)) == 3
+            ctx.check(okw, R, "tag-roles", b.where(rn[0]), "read_name_from_strtab(absolute(DT_STRTAB value), DT_STRSZ value, DT_SONAME value)",
+                      "the values of DT_STRTAB(5)/DT_STRSZ(10)/DT_SONAME(14) are not handed on as (table address, table size, name offset): got locals %s, expected %s" % (got, want))
+            thru = bool(ab) and any(b.term(bi).get("dest") and _root_local(b, args[1]["p"]["l"]) == b.term(bi)["dest"]["l"] for bi in ab)
+            ctx.check(thru, R, "strtab-made-absolute", b.where(rn[0]), "the DT_STRTAB address is made module-relative (absolute()) before it is read", "the string table address is not passed through ProcessMemory::absolute")
+    # (d) sections variant: the name offset is the d_val of the DT_SONAME entry
+    b = ctx.body(R, MR + "::ModuleReader::soname_from_sections")
+    if b is not None:
+        o = Origin(b)
+        rn = [bi for bi, t in b.calls(lambda c: c.endswith("read_name_from_strtab"))]
+        ctx.floor(R, "read_name_from_strtab in soname_from_sections", len(rn), 1)
+        for bi in rn:
+            a = o.call_args(bi)
+            off = core(a[3])
+            okoff = off[0] == "field" and off[2] == "d_val"
+            dnf = conditions(b, bi, origin=o, relevant=lambda q: any(s_[0] == "field" and s_[2] == "d_tag" for s_ in walk(q)))
+            okt = bool(dnf)
+            for c in dnf or []:
+                hit = False
+                for (q, v) in c:
+                    q = core(q)
+                    if q[0] == "bin" and q[1] in ("Eq", "Ne") and is_const(core(q[3])) and core(q[3])[1] == DT_SONAME and ((q[1] == "Eq") == bool(v)):
+                        hit = True
+                okt = okt and hit
+            sz = core(a[2])
+            oksz = all(core(x)[0] == "field" and core(x)[2] == "sh_size" for x in alts(a[2]))
+            ctx.check(okoff and okt and oksz, R, "sections-tag-roles", b.where(bi), "the name offset is the value of the DT_SONAME entry, the table size is the string section's sh_size",
+                      "soname_from_sections hands on offset %s under %s, size %s" % (show(off)[:50], [[(show(q)[:40], v) for q, v in c] for c in (dnf or [])][:1], show(sz)[:40]))
+
+
 def run(ctx):
+    rule_dynamic_entries(ctx)
     rule_strtab_window(ctx)
     from rules import preds
     preds.run(ctx, PROPERTY, ['is_process_memory', 'dynamic-segment', 'dynamic-section'])   # the opaque predicates these rules lean on, against oracle tables
